@@ -149,6 +149,16 @@ class C03(Property):
         return "h%d" % world.model["n"]
 
     # ------------------------------------------------------------------ generation
+    def gen_aftermath(self, world, step, rng):
+        """a write of a list failed: the list object is still in the caller's hands and is exported again"""
+        hs = world.session(step.get("sess")) if step.get("sess") else {}
+        src = step.get("src")
+        if src in hs and hs[src].get("kind") == "rln":
+            v = rng.pick(VERSIONS)
+            tf, sf = rng.pick(FORMATS[v])
+            yield {"op": "export_df", "sess": step["sess"], "src": src, "h": self.new_handle(world), "version": v,
+                   "override": False, "tomo_format": tf, "subtomo_format": sf}
+
     def gen_step(self, world, rng):
         sess = rng.pick(self.SESSIONS)
         hs = world.session(sess)
